@@ -122,6 +122,63 @@ def s2_cases(defs: list[dict], seed: int, per_def: int = 2, cap: int = 300, **fl
     return cases, stats
 
 
+def evidence_subset_cases(tier: str, seed: int, **flags: Any) -> tuple[list[dict], dict]:
+    """Every (thorough; quick: every for the small ones, seeded sample otherwise) non-empty
+    subset of the executions of a few small fork definitions - the learner must cope with ANY
+    part of the evidence, not only with the random subsets of s2_cases."""
+    def E(n: str) -> tuple:
+        return ("ev", n)
+    small = {
+        "or3": [E("A"), ("or", [[E("B")], [E("C")], [E("E")]]), E("D")],
+        "and_xor2": [E("A"), ("and", [[E("P"), ("xor", [[E("B")], [E("C")]]), E("Q")],
+                                      [E("R"), ("xor", [[E("F")], [E("G")]]), E("S")]]), E("D")],
+        "xor_or": [E("A"), ("xor", [[E("X"), ("or", [[E("B")], [E("C")]]), E("Y")], [E("Z")]]),
+                   E("D")],
+        "or2_or2": [E("A"), ("or", [[E("B")], [E("C")]]), E("M"), ("or", [[E("F")], [E("G")]]),
+                    E("D")],
+        "or3_long": [E("A"), ("or", [[E("B"), E("B2")], [E("C")], [E("E"), E("E2")]]), E("D")],
+        "loop_or3": [E("A"), ("loop", [E("L"), ("or", [[E("B")], [E("C")], [E("E")]]), E("M")]),
+                     E("D")],
+        "and3_or2": [E("A"), ("and", [[E("P")], [E("Q")], [E("R"), ("or", [[E("B")], [E("C")]]),
+                                                            E("S")]]), E("D")],
+    }
+    rng = random.Random(f"evsub-{seed}")
+    cases: list[dict] = []
+    stats: dict[str, int] = {}
+    items = [(name, ast, {"F_core"}) for name, ast in small.items()]
+    for c in gen.corpus():
+        if c["ast"] is None:
+            continue
+        jobs = complete_jobs(c["ast"], 2, 400)
+        if jobs and 2 <= len(jobs) <= 8:
+            items.append((c["name"], c["ast"], {"corpus", "corpus:" + c["name"]}))
+    for name, ast, extra_tags in items:
+        jobs = complete_jobs(ast, 2, 400) or []
+        n = len(jobs)
+        full = puml.evidence_model(jobs)
+        limit = 127 if tier == "quick" else 1100
+        if "corpus" in extra_tags and tier == "quick":
+            masks = sorted({rng.randrange(1, 2 ** n) for _ in range(6)})
+        elif 2 ** n - 1 <= limit:
+            masks = list(range(1, 2 ** n))
+        else:
+            masks = sorted({rng.randrange(1, 2 ** n) for _ in range(60 if tier == "quick" else 700)})
+        stats[name] = len(masks)
+        tags0 = sorted(gen.tags_of(ast) | extra_tags | {"evidence-subsets"})
+        for m in masks:
+            sub = [jobs[i] for i in range(n) if m >> i & 1]
+            complete = len(sub) == n
+            eq = puml.evidence_model(sub) == full
+            st = "S1" if complete else ("S2-eq" if eq else "S2-neq")
+            cases.append({
+                "name": name, "kind": "evidence-subsets", "src": ast_json(ast),
+                "tags": tags0 + [st] + ([] if complete else ["S2"]), "stratum": st, "k": 2,
+                "jobs": [puml.job_to_json(j) for j in sub], "variant": "base",
+                "uuid_seed": f"{seed}-{name}-{m}", "rng_seed": f"{seed}-{name}-{m}",
+                "check_extra": False, **flags})
+    return cases, stats
+
+
 # ---------------------------------------------------------------------------- worker side
 def run_learn_case(case: dict) -> dict:
     from . import learn
